@@ -401,19 +401,22 @@ Definition visit_match_field (d : match_field_decl) : vfield * list diag :=
   (mkVField (p_text (mf_name d)) (VAMatch (FRNew (p_text (mf_key d))) pairs) VLNone false "" 0%N 0,
    match_dup_loop pairs []).
 
-(* the type of a length / checksum field declaration: the type of the MetaData entry of the field's NAME when that
-   entry has an attribute *)
+(* the type of a length / checksum field declaration: the written one; without a written type, the type of the
+   MetaData entry of the field's NAME when that entry has an attribute, else the name *)
 Definition decl_type (metas : list vmeta) (ty : option type_) (name : string) : string :=
-  let typ := match ty with Some t => type_text t | None => name end in
-  match find_meta metas name with
-  | Some m =>
-      (* MetaDataMap[name].Attr.GetType() *)
-      match vm_attr m with
-      | VABasic t => BModel.get_basic_type t
-      | VAFixed _ | VADyn => "string"
-      | _ => typ    (* nil: not consulted (MetaData attributes are basic, fixed, dynamic or nil) *)
+  match ty with
+  | Some t => type_text t
+  | None =>
+      match find_meta metas name with
+      | Some m =>
+          (* MetaDataMap[name].Attr.GetType() *)
+          match vm_attr m with
+          | VABasic t => BModel.get_basic_type t
+          | VAFixed _ | VADyn => "string"
+          | _ => name    (* nil: not consulted (MetaData attributes are basic, fixed, dynamic or nil) *)
+          end
+      | None => name
       end
-  | None => typ
   end.
 
 Definition visit_length_field (metas : list vmeta) (d : length_field_decl) : vfield :=
